@@ -1109,3 +1109,67 @@ K("c01k-swap-equal-radices",
    "                        duration._seconds / float(CALENDAR.MINUTES_IN_HOUR))"))
 K("c04k-borrow-equal-radix",
   ("data", "                diff_second += CALENDAR.SECONDS_IN_MINUTE", "                diff_second += CALENDAR.MINUTES_IN_HOUR"))
+
+
+# ====================================== whole-program preserving transforms ==
+def _reformat_all(texts):
+    import ast as _ast
+    return {k: _ast.unparse(_ast.parse(v)) + "\n" for k, v in texts.items()}
+
+
+def _rename_locals_all(texts):
+    import ast as _ast
+
+    class Renamer(_ast.NodeTransformer):
+        def visit_FunctionDef(self, node):
+            a = node.args
+            params = {x.arg for x in a.args + a.kwonlyargs + a.posonlyargs}
+            if a.vararg:
+                params.add(a.vararg.arg)
+            if a.kwarg:
+                params.add(a.kwarg.arg)
+            globs, locs = set(), set()
+            for n in _ast.walk(node):
+                if isinstance(n, (_ast.Global, _ast.Nonlocal)):
+                    globs |= set(n.names)
+            for n in _ast.walk(node):
+                if isinstance(n, _ast.Name) and isinstance(
+                        n.ctx, _ast.Store) and n.id not in params and \
+                        n.id not in globs:
+                    locs.add(n.id)
+                if isinstance(n, _ast.ExceptHandler) and n.name:
+                    locs.add(n.name)
+            for n in _ast.walk(node):
+                if isinstance(n, (_ast.Import, _ast.ImportFrom)):
+                    for al in n.names:
+                        locs.discard(al.asname or al.name.split(".")[0])
+
+            class R(_ast.NodeTransformer):
+                def visit_Name(s, n):
+                    if n.id in locs:
+                        n.id = n.id + "_rn"
+                    return n
+
+                def visit_ExceptHandler(s, n):
+                    if n.name in locs:
+                        n.name = n.name + "_rn"
+                    s.generic_visit(n)
+                    return n
+
+                def visit_FunctionDef(s, n):
+                    return n
+            for i, st in enumerate(node.body):
+                node.body[i] = R().visit(st)
+            return node
+    out = {}
+    for k, v in texts.items():
+        t = Renamer().visit(_ast.parse(v))
+        _ast.fix_missing_locations(t)
+        out[k] = _ast.unparse(t) + "\n"
+    return out
+
+
+K("zzk-reformat-every-module", _reformat_all,
+  note="ast.unparse round trip: all comments, line numbers and wrapping change")
+K("zzk-rename-every-local", _rename_locals_all,
+  note="every local variable of every function renamed (tests still pass)")
